@@ -11,6 +11,8 @@ package serviceinfo
 //@   ensures @budget err == nil ==> kvsize(len(result0.Key), len(result0.Val)) <= int(size)
 //@   ensures @keyinv r.r != nil ==> hdr(len(r.key)) + len(r.key) <= len(r.rkey)
 //@   ensures @nonnil err == nil ==> result0 != nil
+//@   recvnonnil
+//@   ensures @keepreader u(err) == u(ErrSizeTooSmall) ==> r.r != nil
 
 //@ func serviceinfo.cborEncodedLen
 //@   props C15
